@@ -278,3 +278,46 @@ def is_fresh_instance(ctx, e: ast.AST, f: Func, cls) -> bool:
         defs = [n.value for n in f.own_nodes() if isinstance(n, ast.Assign) and any(isinstance(t, ast.Name) and t.id == e.id for t in n.targets)]
         return bool(defs) and all(is_fresh_instance(ctx, d, f, cls) for d in defs)
     return False
+
+
+def state_protocol(ctx, f: Func) -> Tuple[Set[str], Set[str], Set[str]]:
+    """(saved, reset, restored) attributes of `self` in function compiler f, taken over f's own statements and those
+    of the helpers it calls to switch per-function state (methods of the same class that assign attributes of self
+    and emit nothing: a `_begin_function` / `_end_function` pair).
+      saved:    self.A is read into a local, a tuple, or an argument/keyword of a record constructor
+      restored: self.A = <a saved local, or a field of a record that is not self>
+      reset:    any other assignment to self.A (a fresh value, a parameter, a call)"""
+    scope = [f]
+    for cs_ in ctx.cg.sites_of.get(id(f), []):
+        for g in cs_.targets if cs_.kind == "resolved" else []:
+            if g.cls is f.cls and not g.name.startswith("_compile") and g not in scope and not isinstance(g.node, ast.Lambda) and any(isinstance(a, ast.Assign) and any(isinstance(t_, ast.Attribute) and norm(t_.value) == "self" for t_ in a.targets) for a in g.own_nodes()) and not any(isinstance(c_, ast.Call) and norm(c_.func) in ("self._emit", "self._emit_jump") for c_ in g.own_nodes()):
+                scope.append(g)
+    saved: Set[str] = set()
+    reset: Set[str] = set()
+    restored: Set[str] = set()
+    saved_locals: Set[str] = set()
+    for g in scope:
+        for x in g.own_nodes():
+            if isinstance(x, ast.Attribute) and norm(x.value) == "self" and isinstance(x.ctx, ast.Load):
+                par = getattr(x, "_parent", None)
+                if isinstance(par, ast.Assign) and par.value is x and all(isinstance(t_, ast.Name) for t_ in par.targets):
+                    saved.add(x.attr)
+                    saved_locals.update(t_.id for t_ in par.targets)
+                elif isinstance(par, ast.keyword) or (isinstance(par, ast.Tuple) and isinstance(getattr(par, "_parent", None), ast.Assign) and par._parent.value is par) or (isinstance(par, ast.Call) and x in par.args and isinstance(par.func, ast.Name) and par.func.id.lstrip("_")[:1].isupper()):
+                    saved.add(x.attr)
+    for g in scope:
+        for x in g.own_nodes():
+            if not isinstance(x, ast.Assign):
+                continue
+            for t_ in x.targets:
+                tl = list(t_.elts) if isinstance(t_, ast.Tuple) else [t_]
+                vl = list(x.value.elts) if isinstance(t_, ast.Tuple) and isinstance(x.value, ast.Tuple) and len(x.value.elts) == len(tl) else [x.value] * len(tl)
+                for tt, vv in zip(tl, vl):
+                    if not (isinstance(tt, ast.Attribute) and norm(tt.value) == "self"):
+                        continue
+                    from_saved = (isinstance(vv, ast.Name) and vv.id in saved_locals) or (isinstance(vv, ast.Attribute) and isinstance(vv.value, ast.Name) and vv.value.id != "self") or (isinstance(vv, ast.Subscript) and isinstance(vv.value, ast.Name) and vv.value.id != "self")
+                    if from_saved:
+                        restored.add(tt.attr)
+                    else:
+                        reset.add(tt.attr)
+    return saved, reset, restored
